@@ -19,7 +19,7 @@ PLATFORMS = {
     "win-932": dict(encoding="cp932", linesep="\r\n"),
 }
 BUFSIZES = [1, 2, 3, 7, 16, 61, 4096, 8192]
-SIMPLE_KNOBS = dict(sm_lcm_cap=None, bms_odd_tempo_subdiv=None, platform="posix", path_type="str", stored_newline="lf", dest_state="absent", text_chunk=8192, faults="off")
+SIMPLE_KNOBS = dict(pipe_t0_zero=True, sm_lcm_cap=None, bms_odd_tempo_subdiv=None, platform="posix", path_type="str", stored_newline="lf", dest_state="absent", text_chunk=8192, faults="off")
 MAX_SHORT_CALLS = 200
 
 FILE_PROPS = {"C01", "C02", "C03", "C04", "C05", "C06", "C07", "C09", "C13", "C14", "C15"}
@@ -41,6 +41,7 @@ def draw_knobs(r: random.Random, prop: str, tier: str) -> dict:
         # carve-out for the known finding F-C03-measure-row-cap: most sessions keep every measure within 384 rows
         sm_lcm_cap=384 if r.random() < 0.96 else None,
         bms_odd_tempo_subdiv=r.random() < 0.05,
+        pipe_t0_zero=r.random() < 0.5,
     )
 
 
